@@ -1,3 +1,792 @@
 package main
 
-func runClient() {}
+// Server/client layer: the REAL pkg/client verification code against a REAL pkg/database.DB. The client object is
+// wired to an in-process ImmuServiceClient (no network): it calls the database, signs the state exactly as
+// pkg/server does, applies one alteration to the protobuf response and passes it through a marshal/unmarshal round
+// trip. Oracle: whenever the client call succeeds, the state it stored is (id, Alh(id)) of the database and what it
+// returned (key, value, metadata, transaction id) is in the database's history.
+
+import (
+	"bytes"
+	"context"
+	"crypto/ecdsa"
+	"crypto/elliptic"
+	"crypto/rand"
+	"crypto/sha256"
+	"fmt"
+	"math"
+	"os"
+	"sort"
+	"strings"
+
+	"github.com/codenotary/immudb/embedded/logger"
+	"github.com/codenotary/immudb/embedded/store"
+	"github.com/codenotary/immudb/pkg/api/schema"
+	"github.com/codenotary/immudb/pkg/client"
+	"github.com/codenotary/immudb/pkg/database"
+	"github.com/codenotary/immudb/pkg/server"
+	"github.com/codenotary/immudb/pkg/signer"
+	"google.golang.org/grpc"
+	"google.golang.org/grpc/credentials/insecure"
+	"google.golang.org/protobuf/proto"
+	"google.golang.org/protobuf/reflect/protoreflect"
+	"verif/mc/lib"
+	"verif/mc/storeh"
+)
+
+var quietLog = logger.NewMemoryLoggerWithLevel(logger.LogError)
+
+// ---------- in-process service ----------
+
+type fakeSvc struct {
+	schema.ImmuServiceClient // every method not overridden panics (nil): the harness would notice
+	db                       database.DB
+	signer                   server.StateSigner
+	alter                    func(m proto.Message) // applied to the first response of a client call
+	armed                    bool
+	honest                   proto.Message // the unaltered first response (for alteration enumeration)
+	cache                    map[string]proto.Message
+}
+
+func (f *fakeSvc) sign(vtx *schema.VerifiableTx) {
+	hdr := schema.TxHeaderFromProto(vtx.DualProof.TargetTxHeader)
+	alh := hdr.Alh()
+	st := &schema.ImmutableState{Db: f.db.GetName(), TxId: hdr.ID, TxHash: alh[:]}
+	must(f.signer.Sign(st))
+	vtx.Signature = st.Signature
+}
+
+// wire: what the client receives. Only the first response of a client call is altered (follow-up calls of
+// FillMissingLinearAdvanceProof are answered honestly).
+func (f *fakeSvc) wire(m proto.Message) proto.Message {
+	out := proto.Clone(m)
+	if f.armed {
+		f.armed = false
+		f.honest = proto.Clone(m)
+		if f.alter != nil {
+			f.alter(out)
+		}
+	}
+	bs, err := proto.Marshal(out)
+	must(err)
+	res := out.ProtoReflect().New().Interface()
+	must(proto.Unmarshal(bs, res))
+	return res
+}
+
+// once: state-changing RPCs are executed once per distinct request; replays of the same request get the recorded
+// response (a malicious server may answer anything, a recorded answer in particular).
+func (f *fakeSvc) once(method string, req proto.Message, do func() (proto.Message, error)) (proto.Message, error) {
+	bs, _ := proto.MarshalOptions{Deterministic: true}.Marshal(req)
+	k := method + string(bs)
+	if m, ok := f.cache[k]; ok {
+		return m, nil
+	}
+	m, err := do()
+	if err == nil {
+		f.cache[k] = m
+	}
+	return m, err
+}
+
+func (f *fakeSvc) VerifiableGet(ctx context.Context, in *schema.VerifiableGetRequest, _ ...grpc.CallOption) (*schema.VerifiableEntry, error) {
+	r, err := f.db.VerifiableGet(ctx, in)
+	if err != nil {
+		return nil, err
+	}
+	f.sign(r.VerifiableTx)
+	return f.wire(r).(*schema.VerifiableEntry), nil
+}
+
+func (f *fakeSvc) VerifiableTxById(ctx context.Context, in *schema.VerifiableTxRequest, _ ...grpc.CallOption) (*schema.VerifiableTx, error) {
+	r, err := f.db.VerifiableTxByID(ctx, in)
+	if err != nil {
+		return nil, err
+	}
+	f.sign(r)
+	return f.wire(r).(*schema.VerifiableTx), nil
+}
+
+func (f *fakeSvc) VerifiableSQLGet(ctx context.Context, in *schema.VerifiableSQLGetRequest, _ ...grpc.CallOption) (*schema.VerifiableSQLEntry, error) {
+	r, err := f.db.VerifiableSQLGet(ctx, in)
+	if err != nil {
+		return nil, err
+	}
+	f.sign(r.VerifiableTx)
+	return f.wire(r).(*schema.VerifiableSQLEntry), nil
+}
+
+func (f *fakeSvc) VerifiableSet(ctx context.Context, in *schema.VerifiableSetRequest, _ ...grpc.CallOption) (*schema.VerifiableTx, error) {
+	m, err := f.once("set", in, func() (proto.Message, error) {
+		r, err := f.db.VerifiableSet(ctx, in)
+		if err == nil {
+			f.sign(r)
+		}
+		return r, err
+	})
+	if err != nil {
+		return nil, err
+	}
+	return f.wire(m).(*schema.VerifiableTx), nil
+}
+
+func (f *fakeSvc) VerifiableZAdd(ctx context.Context, in *schema.VerifiableZAddRequest, _ ...grpc.CallOption) (*schema.VerifiableTx, error) {
+	m, err := f.once("zadd", in, func() (proto.Message, error) {
+		r, err := f.db.VerifiableZAdd(ctx, in)
+		if err == nil {
+			f.sign(r)
+		}
+		return r, err
+	})
+	if err != nil {
+		return nil, err
+	}
+	return f.wire(m).(*schema.VerifiableTx), nil
+}
+
+func (f *fakeSvc) VerifiableSetReference(ctx context.Context, in *schema.VerifiableReferenceRequest, _ ...grpc.CallOption) (*schema.VerifiableTx, error) {
+	m, err := f.once("ref", in, func() (proto.Message, error) {
+		r, err := f.db.VerifiableSetReference(ctx, in)
+		if err == nil {
+			f.sign(r)
+		}
+		return r, err
+	})
+	if err != nil {
+		return nil, err
+	}
+	return f.wire(m).(*schema.VerifiableTx), nil
+}
+
+type memState struct{ st *schema.ImmutableState }
+
+func (m *memState) GetState(ctx context.Context, db string) (*schema.ImmutableState, error) {
+	return proto.Clone(m.st).(*schema.ImmutableState), nil
+}
+func (m *memState) SetState(db string, st *schema.ImmutableState) error {
+	m.st = proto.Clone(st).(*schema.ImmutableState)
+	return nil
+}
+func (m *memState) CacheLock() error         { return nil }
+func (m *memState) CacheUnlock() error       { return nil }
+func (m *memState) SetServerIdentity(string) {}
+
+// ---------- generic single alterations of a protobuf message ----------
+
+type pstep struct {
+	fd  protoreflect.FieldDescriptor
+	idx int                 // list index (-1: none)
+	key protoreflect.MapKey // map key (valid when fd.IsMap())
+}
+
+type pAlt struct {
+	name string
+	f    func(m proto.Message)
+}
+
+func nav(m protoreflect.Message, path []pstep) protoreflect.Message {
+	for _, s := range path {
+		switch {
+		case s.fd.IsList():
+			m = m.Get(s.fd).List().Get(s.idx).Message()
+		case s.fd.IsMap():
+			m = m.Get(s.fd).Map().Get(s.key).Message()
+		default:
+			m = m.Get(s.fd).Message()
+		}
+	}
+	return m
+}
+
+func pathName(path []pstep, fd protoreflect.FieldDescriptor) string {
+	var sb strings.Builder
+	for _, s := range path {
+		sb.WriteString(string(s.fd.Name()))
+		if s.idx >= 0 {
+			fmt.Fprintf(&sb, "[%d]", s.idx)
+		}
+		sb.WriteByte('.')
+	}
+	sb.WriteString(string(fd.Name()))
+	return sb.String()
+}
+
+// scalarAlts: replacement values for one scalar. 32-byte values are hashes: flipped bit, empty, every pool hash;
+// other byte strings: flipped last bit, empty, one byte appended; integers: 0, 1, v±1, max; bool toggled; string/double changed.
+func scalarAlts(fd protoreflect.FieldDescriptor, v protoreflect.Value, pool [][]byte) (names []string, vals []protoreflect.Value) {
+	add := func(n string, x protoreflect.Value) { names = append(names, n); vals = append(vals, x) }
+	switch fd.Kind() {
+	case protoreflect.BytesKind:
+		b := v.Bytes()
+		if len(b) > 0 {
+			c := append([]byte{}, b...)
+			c[len(c)-1] ^= 1
+			add("^bit", protoreflect.ValueOfBytes(c))
+			add("empty", protoreflect.ValueOfBytes(nil))
+		}
+		add("+00", protoreflect.ValueOfBytes(append(append([]byte{}, b...), 0)))
+		if len(b) == sha256.Size {
+			for i, h := range pool {
+				if !bytes.Equal(h, b) {
+					add(fmt.Sprintf("pool%d", i), protoreflect.ValueOfBytes(h))
+				}
+			}
+		}
+	case protoreflect.Uint64Kind, protoreflect.Fixed64Kind:
+		for _, x := range u64set(v.Uint()) {
+			add(fmt.Sprint(x), protoreflect.ValueOfUint64(x))
+		}
+	case protoreflect.Uint32Kind, protoreflect.Fixed32Kind:
+		for _, x := range []uint32{0, 1, uint32(v.Uint()) - 1, uint32(v.Uint()) + 1, math.MaxUint32} {
+			if uint64(x) != v.Uint() {
+				add(fmt.Sprint(x), protoreflect.ValueOfUint32(x))
+			}
+		}
+	case protoreflect.Int64Kind, protoreflect.Sint64Kind, protoreflect.Sfixed64Kind:
+		for _, x := range []int64{0, 1, v.Int() - 1, v.Int() + 1, math.MaxInt64, -1} {
+			if x != v.Int() {
+				add(fmt.Sprint(x), protoreflect.ValueOfInt64(x))
+			}
+		}
+	case protoreflect.Int32Kind, protoreflect.Sint32Kind, protoreflect.Sfixed32Kind:
+		for _, x := range []int32{0, 1, int32(v.Int()) - 1, int32(v.Int()) + 1, math.MaxInt32, -1} {
+			if int64(x) != v.Int() {
+				add(fmt.Sprint(x), protoreflect.ValueOfInt32(x))
+			}
+		}
+	case protoreflect.BoolKind:
+		add("toggled", protoreflect.ValueOfBool(!v.Bool()))
+	case protoreflect.StringKind:
+		add("+x", protoreflect.ValueOfString(v.String()+"x"))
+		if v.String() != "" {
+			add("empty", protoreflect.ValueOfString(""))
+		}
+	case protoreflect.DoubleKind:
+		add("+1", protoreflect.ValueOfFloat64(v.Float()+1))
+	case protoreflect.FloatKind:
+		add("+1", protoreflect.ValueOfFloat32(float32(v.Float())+1))
+	case protoreflect.EnumKind:
+		add("+1", protoreflect.ValueOfEnum(v.Enum()+1))
+	}
+	return
+}
+
+// protoAlts enumerates every single alteration of message m: every scalar (recursively) through scalarAlts, every
+// present sub-message cleared, every absent one set to an empty message, every list: drop / duplicate / swap adjacent /
+// (hash lists) append a pool hash, every map: delete a key, swap the values of two keys.
+func protoAlts(m proto.Message, pool [][]byte) []pAlt {
+	var out []pAlt
+	var walk func(msg protoreflect.Message, path []pstep)
+	walk = func(msg protoreflect.Message, path []pstep) {
+		path = append([]pstep{}, path...)
+		fds := msg.Descriptor().Fields()
+		for i := 0; i < fds.Len(); i++ {
+			fd := fds.Get(i)
+			name := pathName(path, fd)
+			at := func(root proto.Message) protoreflect.Message { return nav(root.ProtoReflect(), path) }
+			switch {
+			case fd.IsList():
+				l := msg.Get(fd).List()
+				for k := 0; k < l.Len(); k++ {
+					k := k
+					out = append(out, pAlt{fmt.Sprintf("%s.drop%d", name, k), func(r proto.Message) {
+						ll := at(r).Mutable(fd).List()
+						for j := k; j+1 < ll.Len(); j++ {
+							ll.Set(j, ll.Get(j+1))
+						}
+						ll.Truncate(ll.Len() - 1)
+					}})
+					out = append(out, pAlt{fmt.Sprintf("%s.dup%d", name, k), func(r proto.Message) {
+						ll := at(r).Mutable(fd).List()
+						ll.Append(ll.Get(k))
+					}})
+					if k+1 < l.Len() {
+						out = append(out, pAlt{fmt.Sprintf("%s.swap%d", name, k), func(r proto.Message) {
+							ll := at(r).Mutable(fd).List()
+							a, b := ll.Get(k), ll.Get(k+1)
+							if fd.Message() != nil {
+								a, b = protoreflect.ValueOfMessage(proto.Clone(a.Message().Interface()).ProtoReflect()), protoreflect.ValueOfMessage(proto.Clone(b.Message().Interface()).ProtoReflect())
+							}
+							ll.Set(k, b)
+							ll.Set(k+1, a)
+						}})
+					}
+					if fd.Message() != nil {
+						walk(l.Get(k).Message(), append(path, pstep{fd: fd, idx: k}))
+					} else {
+						ns, vs := scalarAlts(fd, l.Get(k), pool)
+						for j := range ns {
+							v := vs[j]
+							out = append(out, pAlt{fmt.Sprintf("%s[%d]=%s", name, k, ns[j]), func(r proto.Message) { at(r).Mutable(fd).List().Set(k, v) }})
+						}
+					}
+				}
+				if fd.Kind() == protoreflect.BytesKind {
+					for j, h := range pool {
+						if j >= 3 {
+							break
+						}
+						h := h
+						out = append(out, pAlt{fmt.Sprintf("%s.append-pool%d", name, j), func(r proto.Message) { at(r).Mutable(fd).List().Append(protoreflect.ValueOfBytes(h)) }})
+					}
+				}
+			case fd.IsMap():
+				var keys []protoreflect.MapKey
+				msg.Get(fd).Map().Range(func(k protoreflect.MapKey, _ protoreflect.Value) bool { keys = append(keys, k); return true })
+				sort.Slice(keys, func(a, b int) bool { return keys[a].String() < keys[b].String() })
+				for a, k := range keys {
+					k := k
+					out = append(out, pAlt{fmt.Sprintf("%s.delete(%s)", name, k.String()), func(r proto.Message) { at(r).Mutable(fd).Map().Clear(k) }})
+					if fd.MapValue().Message() == nil {
+						ns, vs := scalarAlts(fd.MapValue(), msg.Get(fd).Map().Get(k), pool)
+						for j := range ns {
+							v := vs[j]
+							out = append(out, pAlt{fmt.Sprintf("%s[%s]=%s", name, k.String(), ns[j]), func(r proto.Message) { at(r).Mutable(fd).Map().Set(k, v) }})
+						}
+					}
+					for _, k2 := range keys[a+1:] {
+						k2 := k2
+						out = append(out, pAlt{fmt.Sprintf("%s.swap(%s,%s)", name, k.String(), k2.String()), func(r proto.Message) {
+							mm := at(r).Mutable(fd).Map()
+							x, y := mm.Get(k), mm.Get(k2)
+							mm.Set(k, y)
+							mm.Set(k2, x)
+						}})
+					}
+				}
+			case fd.Message() != nil:
+				if msg.Has(fd) {
+					out = append(out, pAlt{name + "=nil", func(r proto.Message) { at(r).Clear(fd) }})
+					walk(msg.Get(fd).Message(), append(path, pstep{fd: fd, idx: -1}))
+				} else {
+					out = append(out, pAlt{name + "=empty-message", func(r proto.Message) { at(r).Mutable(fd) }})
+					// an absent sub-message created with exactly one scalar field set (e.g. metadata.deleted=true)
+					sub := fd.Message().Fields()
+					for q := 0; q < sub.Len(); q++ {
+						sfd := sub.Get(q)
+						if sfd.IsList() || sfd.IsMap() || sfd.Message() != nil {
+							continue
+						}
+						ns, vs := scalarAlts(sfd, sfd.Default(), pool)
+						for j := range ns {
+							v := vs[j]
+							out = append(out, pAlt{fmt.Sprintf("%s.%s=%s", name, sfd.Name(), ns[j]), func(r proto.Message) { at(r).Mutable(fd).Message().Set(sfd, v) }})
+						}
+					}
+				}
+			default:
+				ns, vs := scalarAlts(fd, msg.Get(fd), pool)
+				for j := range ns {
+					v := vs[j]
+					out = append(out, pAlt{fmt.Sprintf("%s=%s", name, ns[j]), func(r proto.Message) { at(r).Set(fd, v) }})
+				}
+			}
+		}
+	}
+	walk(m.ProtoReflect(), nil)
+	return out
+}
+
+// ---------- one database history with its ground truth ----------
+
+type vclient interface {
+	VerifiedGet(ctx context.Context, key []byte, opts ...client.GetOption) (*schema.Entry, error)
+	VerifiedGetAt(ctx context.Context, key []byte, tx uint64) (*schema.Entry, error)
+	VerifiedTxByID(ctx context.Context, tx uint64) (*schema.Tx, error)
+	VerifiedSet(ctx context.Context, key []byte, value []byte) (*schema.TxHeader, error)
+	VerifiedZAdd(ctx context.Context, set []byte, score float64, key []byte) (*schema.TxHeader, error)
+	VerifiedSetReference(ctx context.Context, key []byte, referencedKey []byte) (*schema.TxHeader, error)
+	VerifyRow(ctx context.Context, row *schema.Row, table string, pkVals []*schema.SQLValue) error
+}
+
+type dbHist struct {
+	name  string
+	db    database.DB
+	dir   string
+	n     int
+	alh   [][]byte                // 1-based
+	hdr   []*schema.TxHeader      // 1-based
+	ents  []map[string]bool       // per tx: raw key | md bytes | hvalue
+	pool  [][]byte                // hashes of the history
+	svc   *fakeSvc
+	cl    vclient
+	st    *memState
+	pub   *ecdsa.PublicKey
+	stats map[string]int64
+}
+
+func entKey(key []byte, md *store.KVMetadata, hval []byte) string {
+	var mb []byte
+	if md != nil {
+		mb = md.Bytes()
+	}
+	return fmt.Sprintf("%x|%x|%x", key, mb, hval)
+}
+
+func (h *dbHist) refresh() {
+	ctx := context.Background()
+	st, err := h.db.CurrentState()
+	must(err)
+	for id := h.n + 1; id <= int(st.TxId); id++ {
+		tx, err := h.db.TxByID(ctx, &schema.TxRequest{Tx: uint64(id)})
+		must(err)
+		a := schema.TxHeaderFromProto(tx.Header).Alh()
+		for len(h.alh) <= id {
+			h.alh, h.hdr, h.ents = append(h.alh, nil), append(h.hdr, nil), append(h.ents, nil)
+		}
+		h.alh[id], h.hdr[id], h.ents[id] = a[:], tx.Header, map[string]bool{}
+		for _, e := range tx.Entries {
+			h.ents[id][entKey(e.Key, schema.KVMetadataFromProto(e.Metadata), e.HValue)] = true
+		}
+		if id <= 8 {
+			h.pool = append(h.pool, a[:], tx.Header.EH, tx.Header.BlRoot)
+		}
+	}
+	h.n = int(st.TxId)
+}
+
+func (h *dbHist) has(tx uint64, spec *store.EntrySpec) bool {
+	if tx == 0 || int(tx) > h.n {
+		return false
+	}
+	hv := sha256.Sum256(spec.Value)
+	return h.ents[tx][entKey(spec.Key, spec.Metadata, hv[:])]
+}
+
+func newDBHist(name string, ver int, signing bool, build func(ctx context.Context, db database.DB)) *dbHist {
+	h := &dbHist{name: name, dir: lib.Scratch("c01db"), stats: map[string]int64{}, alh: [][]byte{nil}, hdr: []*schema.TxHeader{nil}, ents: []map[string]bool{nil}}
+	so := storeh.SmallOptions().WithMaxTxEntries(64).WithMaxKeyLen(256).WithMaxValueLen(1024).WithWriteTxHeaderVersion(ver).
+		WithAHTOptions(store.DefaultAHTOptions().WithWriteBufferSize(4096).WithSyncThld(64))
+	db, err := database.NewDB("defaultdb", nil, database.DefaultOptions().WithDBRootPath(h.dir).WithStoreOptions(so).WithReadTxPoolSize(4), quietLog)
+	must(err)
+	h.db = db
+	build(context.Background(), db)
+	h.refresh()
+	key, err := ecdsa.GenerateKey(elliptic.P256(), rand.Reader)
+	must(err)
+	h.pub = &key.PublicKey
+	h.svc = &fakeSvc{db: db, signer: server.NewStateSigner(signer.NewSignerFromPKey(rand.Reader, key)), cache: map[string]proto.Message{}}
+	conn, err := grpc.NewClient("passthrough:///c01", grpc.WithTransportCredentials(insecure.NewCredentials())) // never dialled
+	must(err)
+	h.st = &memState{}
+	cl := client.NewClient().WithOptions(client.DefaultOptions().WithDir(h.dir))
+	cl.WithLogger(quietLog)
+	cl.WithClientConn(conn).WithServiceClient(h.svc).WithStateService(h.st)
+	if signing {
+		cl.WithServerSigningPubKey(h.pub)
+	}
+	h.cl = cl
+	return h
+}
+
+func (h *dbHist) close() {
+	h.db.Close()
+	os.RemoveAll(h.dir)
+}
+
+// call: one client operation. run returns (what the property covers of the returned value, error).
+type call struct {
+	name         string
+	expectReject bool // the honest flow must refuse (the caller's input is not what the database holds)
+	run          func(ctx context.Context, h *dbHist) (out string, bad string, err error)
+}
+
+func mdOf(m *schema.KVMetadata) *store.KVMetadata { return schema.KVMetadataFromProto(m) }
+
+func (h *dbHist) checkEntry(reqKey []byte, e *schema.Entry) string {
+	if e.ReferencedBy == nil {
+		if !bytes.Equal(e.Key, reqKey) {
+			return fmt.Sprintf("returned key %q for requested key %q", e.Key, reqKey)
+		}
+		if !h.has(e.Tx, database.EncodeEntrySpec(e.Key, mdOf(e.Metadata), e.Value)) {
+			return fmt.Sprintf("returned entry (key %q, value %q, metadata %v) is not an entry of tx %d", e.Key, e.Value, e.Metadata, e.Tx)
+		}
+		return ""
+	}
+	r := e.ReferencedBy
+	if !bytes.Equal(r.Key, reqKey) {
+		return fmt.Sprintf("returned reference key %q for requested key %q", r.Key, reqKey)
+	}
+	if !h.has(r.Tx, database.EncodeReference(r.Key, mdOf(r.Metadata), e.Key, r.AtTx)) {
+		return fmt.Sprintf("returned reference (%q -> %q at %d, metadata %v) is not an entry of tx %d", r.Key, e.Key, r.AtTx, r.Metadata, r.Tx)
+	}
+	if !h.has(e.Tx, database.EncodeEntrySpec(e.Key, mdOf(e.Metadata), e.Value)) {
+		return fmt.Sprintf("via-reference: resolved entry (key %q, value %q, metadata %v) is not an entry of tx %d", e.Key, e.Value, e.Metadata, e.Tx)
+	}
+	return ""
+}
+
+func getCall(key string, at uint64) call {
+	return call{name: fmt.Sprintf("VerifiedGet(%s,atTx=%d)", key, at), run: func(ctx context.Context, h *dbHist) (string, string, error) {
+		var e *schema.Entry
+		var err error
+		if at == 0 {
+			e, err = h.cl.VerifiedGet(ctx, []byte(key))
+		} else {
+			e, err = h.cl.VerifiedGetAt(ctx, []byte(key), at)
+		}
+		if err != nil {
+			return "", "", err
+		}
+		bad := ""
+		if tx := e.Tx; at != 0 && (e.ReferencedBy != nil && e.ReferencedBy.Tx != at || e.ReferencedBy == nil && tx != at) {
+			bad = fmt.Sprintf("asked for tx %d, the returned entry says tx %d", at, tx)
+		}
+		if bad == "" {
+			bad = h.checkEntry([]byte(key), e)
+		}
+		return fmt.Sprintf("%s=%q@%d", e.Key, e.Value, e.Tx), bad, nil
+	}}
+}
+
+func txCall(id uint64) call {
+	return call{name: fmt.Sprintf("VerifiedTxByID(%d)", id), run: func(ctx context.Context, h *dbHist) (string, string, error) {
+		tx, err := h.cl.VerifiedTxByID(ctx, id)
+		if err != nil {
+			return "", "", err
+		}
+		if tx.Header == nil || tx.Header.Id != id {
+			return "", fmt.Sprintf("returned a tx whose header id is not %d", id), nil
+		}
+		if len(tx.Entries) != len(h.ents[id]) {
+			return "", fmt.Sprintf("returned tx %d with %d entries, history has %d", id, len(tx.Entries), len(h.ents[id])), nil
+		}
+		for _, e := range tx.Entries {
+			full := append([]byte{h.rawPrefix(id, e)}, e.Key...)
+			if !h.ents[id][entKey(full, mdOf(e.Metadata), e.HValue)] {
+				return "", fmt.Sprintf("returned tx %d contains entry (key %q, hvalue %x, metadata %v) that the history's tx %d does not contain", id, e.Key, e.HValue, e.Metadata, id), nil
+			}
+		}
+		return fmt.Sprint(len(tx.Entries)), "", nil
+	}}
+}
+
+// the client strips the first key byte of every tx entry (decodeTxEntries); put back the one the history has
+func (h *dbHist) rawPrefix(id uint64, e *schema.TxEntry) byte {
+	for _, p := range []byte{database.SetKeyPrefix, database.SortedSetKeyPrefix, database.SQLPrefix} {
+		if h.ents[id][entKey(append([]byte{p}, e.Key...), mdOf(e.Metadata), e.HValue)] {
+			return p
+		}
+	}
+	return database.SetKeyPrefix
+}
+
+func setCall(key, val string) call {
+	return call{name: fmt.Sprintf("VerifiedSet(%s,%s)", key, val), run: func(ctx context.Context, h *dbHist) (string, string, error) {
+		hdr, err := h.cl.VerifiedSet(ctx, []byte(key), []byte(val))
+		h.refresh()
+		if err != nil {
+			return "", "", err
+		}
+		if !h.has(hdr.Id, database.EncodeEntrySpec([]byte(key), nil, []byte(val))) {
+			return "", fmt.Sprintf("returned tx id %d, but that tx does not contain (%s,%s)", hdr.Id, key, val), nil
+		}
+		return fmt.Sprint(hdr.Id), "", nil
+	}}
+}
+
+func zaddCall(set string, score float64, key string) call {
+	return call{name: fmt.Sprintf("VerifiedZAdd(%s,%v,%s)", set, score, key), run: func(ctx context.Context, h *dbHist) (string, string, error) {
+		hdr, err := h.cl.VerifiedZAdd(ctx, []byte(set), score, []byte(key))
+		h.refresh()
+		if err != nil {
+			return "", "", err
+		}
+		if !h.has(hdr.Id, database.EncodeZAdd([]byte(set), score, database.EncodeKey([]byte(key)), 0)) {
+			return "", fmt.Sprintf("returned tx id %d, but that tx does not contain the sorted-set entry", hdr.Id), nil
+		}
+		return fmt.Sprint(hdr.Id), "", nil
+	}}
+}
+
+func refCall(key, to string) call {
+	return call{name: fmt.Sprintf("VerifiedSetReference(%s->%s)", key, to), run: func(ctx context.Context, h *dbHist) (string, string, error) {
+		hdr, err := h.cl.VerifiedSetReference(ctx, []byte(key), []byte(to))
+		h.refresh()
+		if err != nil {
+			return "", "", err
+		}
+		if !h.has(hdr.Id, database.EncodeReference([]byte(key), nil, []byte(to), 0)) {
+			return "", fmt.Sprintf("returned tx id %d, but that tx does not contain the reference", hdr.Id), nil
+		}
+		return fmt.Sprint(hdr.Id), "", nil
+	}}
+}
+
+// rowCall: VerifyRow(row) for a row the caller holds; truth = whether that row is the table's row.
+func rowCall(id int64, v, w string, genuine bool) call {
+	return call{name: fmt.Sprintf("VerifyRow(t,id=%d,v=%s,w=%s)", id, v, w), expectReject: !genuine, run: func(ctx context.Context, h *dbHist) (string, string, error) {
+		row := &schema.Row{Columns: []string{"(t.id)", "(t.v)", "(t.w)"}, Values: []*schema.SQLValue{{Value: &schema.SQLValue_N{N: id}}, {Value: &schema.SQLValue_S{S: v}}, {Value: &schema.SQLValue_S{S: w}}}}
+		err := h.cl.VerifyRow(ctx, row, "t", []*schema.SQLValue{{Value: &schema.SQLValue_N{N: id}}})
+		if err != nil {
+			return "", "", err
+		}
+		if !genuine {
+			return "", fmt.Sprintf("row (id=%d, v=%s, w=%s) verified, but the table never held it", id, v, w), nil
+		}
+		return "ok", "", nil
+	}}
+}
+
+func (h *dbHist) trusted(s int) {
+	h.st.st = &schema.ImmutableState{Db: "defaultdb", TxId: uint64(s), TxHash: append([]byte{}, h.alh[s]...)}
+}
+
+// explore: for every trusted state s and every call: honest run (completeness), then every single alteration.
+func (h *dbHist) explore(calls []call, maxS int, mode string) {
+	ctx := context.Background()
+	for s := 1; s <= maxS; s++ {
+		for _, cl := range calls {
+			if c.Expired() {
+				c.CapHit("client layer: not all (history, trusted state, call) combinations explored (time budget)")
+				return
+			}
+			h.trusted(s)
+			h.svc.alter, h.svc.armed, h.svc.honest = nil, true, nil
+			var out, bad string
+			var err error
+			if pn := lib.Catch(func() { out, bad, err = cl.run(ctx, h) }); pn != "" {
+				harnessBug("client layer, honest call " + cl.name + ": " + pn)
+			}
+			c.Eval(fmt.Sprintf("D:%s:%s:%d:%s", h.name, mode, s, cl.name))
+			genuineReject := cl.expectReject && err != nil // a wrong row must be rejected
+			stBad := h.stateBad()
+			switch {
+			case genuineReject:
+			case err != nil || bad != "" || stBad != "":
+				if cl.expectReject {
+					viol(fmt.Sprintf("client-accepts-forged api=%s trusted=%d alter=none(wrong input row) hist=%s/%s", cl.name, s, h.name, mode), bad, nil)
+				} else {
+					viol(fmt.Sprintf("rejects-honest api=client.%s pair=(%d,-) history=%s/%s", cl.name, s, h.name, mode), fmt.Sprintf("honest server, honest response: err=%v %s %s", err, bad, stBad), nil)
+				}
+				continue
+			default:
+				cnt.honestOK++
+			}
+			if h.svc.honest == nil {
+				continue
+			}
+			honestOut := out
+			alts := protoAlts(h.svc.honest, h.pool)
+			h.stats["alterations"] += int64(len(alts))
+			for _, a := range alts {
+				a := a
+				h.trusted(s)
+				h.svc.alter, h.svc.armed = a.f, true
+				var out, bad string
+				var err error
+				c.AddEvals(1)
+				if pn := lib.Catch(func() { out, bad, err = cl.run(ctx, h) }); pn != "" {
+					h.stats["client_panics"]++
+					first := strings.SplitN(pn, "\n", 2)[0]
+					h.stats["panic: "+first]++
+					continue
+				}
+				if err != nil {
+					h.stats["rejected"]++
+					continue
+				}
+				if bad == "" {
+					bad = h.stateBad()
+				}
+				if bad != "" {
+					cnt.forged++
+					viol(fmt.Sprintf("client-accepts-forged kind=%s api=client.%s trusted=%d alter=%s hist=%s/%s", kindOf(bad), cl.name, s, a.name, h.name, mode), bad, map[string]any{"client": true})
+					continue
+				}
+				if out == honestOut {
+					h.stats["accepted_same_result"]++
+				} else {
+					h.stats["accepted_other_true_result"]++
+				}
+			}
+		}
+	}
+}
+
+// kindOf: which part of the client's result is not the history's (stable word for signatures).
+func kindOf(bad string) string {
+	switch {
+	case strings.HasPrefix(bad, "the client stored state"):
+		return "stored-state"
+	case strings.HasPrefix(bad, "via-reference"):
+		return "value-behind-reference"
+	case strings.HasPrefix(bad, "returned key") || strings.HasPrefix(bad, "returned reference key"):
+		return "echoed-key"
+	case strings.HasPrefix(bad, "asked for tx"):
+		return "echoed-tx"
+	case strings.HasPrefix(bad, "returned a tx") || strings.HasPrefix(bad, "returned tx "):
+		return "tx-content-not-bound-to-proof"
+	case strings.HasPrefix(bad, "row "):
+		return "row"
+	}
+	return "entry"
+}
+
+// stateBad: the state the client stored must be a state of the history.
+func (h *dbHist) stateBad() string {
+	st := h.st.st
+	if st == nil || st.TxId == 0 || int(st.TxId) > h.n || !bytes.Equal(st.TxHash, h.alh[st.TxId]) {
+		return fmt.Sprintf("the client stored state (tx %d, %x), which is not a state of the database", st.GetTxId(), st.GetTxHash())
+	}
+	return ""
+}
+
+func runClient() {
+	kv := func(ver int) func(ctx context.Context, db database.DB) {
+		return func(ctx context.Context, db database.DB) {
+			_, err := db.Set(ctx, &schema.SetRequest{KVs: []*schema.KeyValue{{Key: []byte("a"), Value: []byte("x")}}})
+			must(err)
+			_, err = db.Set(ctx, &schema.SetRequest{KVs: []*schema.KeyValue{{Key: []byte("b"), Value: []byte("y")}, {Key: []byte("c"), Value: []byte{}}}})
+			must(err)
+			_, err = db.SetReference(ctx, &schema.ReferenceRequest{Key: []byte("r"), ReferencedKey: []byte("a")})
+			must(err)
+			_, err = db.ZAdd(ctx, &schema.ZAddRequest{Set: []byte("z"), Score: 1.5, Key: []byte("a")})
+			must(err)
+			if ver == 1 {
+				_, err = db.Delete(ctx, &schema.DeleteKeysRequest{Keys: [][]byte{[]byte("b")}})
+			} else {
+				_, err = db.Set(ctx, &schema.SetRequest{KVs: []*schema.KeyValue{{Key: []byte("a"), Value: []byte("y")}}})
+			}
+			must(err)
+		}
+	}
+	kvCalls := func(ver int) []call {
+		cs := []call{getCall("a", 0), getCall("c", 0), getCall("r", 0), getCall("a", 1), getCall("b", 2), getCall("c", 2), getCall("r", 3)}
+		if ver == 0 {
+			cs = append(cs, getCall("a", 5), getCall("b", 0))
+		}
+		for id := uint64(1); id <= 5; id++ {
+			cs = append(cs, txCall(id))
+		}
+		return append(cs, setCall("n", "v"), zaddCall("z", 2.5, "c"), refCall("r2", "c"))
+	}
+	for _, ver := range []int{1, 0} {
+		for _, signing := range []bool{false, true} {
+			if ver == 0 && signing {
+				continue
+			}
+			h := newDBHist(fmt.Sprintf("kv-v%d", ver), ver, signing, kv(ver))
+			mode := map[bool]string{false: "nosig", true: "sig"}[signing]
+			h.explore(kvCalls(ver), 5, mode)
+			h.report()
+			h.close()
+		}
+	}
+	h := newDBHist("sql-v1", 1, false, func(ctx context.Context, db database.DB) {
+		for _, q := range []string{"CREATE TABLE t(id INTEGER, v VARCHAR[8], w VARCHAR[8], PRIMARY KEY id)", "INSERT INTO t(id,v,w) VALUES (1,'x','y')",
+			"INSERT INTO t(id,v,w) VALUES (2,'y','x')", "UPSERT INTO t(id,v,w) VALUES (1,'z','y')"} {
+			_, _, err := db.SQLExec(ctx, nil, &schema.SQLExecRequest{Sql: q})
+			must(err)
+		}
+	})
+	h.explore([]call{rowCall(1, "z", "y", true), rowCall(2, "y", "x", true), rowCall(1, "y", "z", false), rowCall(2, "x", "y", false), txCall(2), txCall(4)}, h.n, "nosig")
+	h.report()
+	h.close()
+}
+
+func (h *dbHist) report() {
+	for k, v := range h.stats {
+		c.Add("D_"+k, v)
+	}
+}
